@@ -6,15 +6,20 @@ from contracts import lnodes_shapes, spec
 from pyvc.contract import Registry
 
 
-def build():
+def build(tier="quick"):
     reg = Registry(spec_globals=vars(spec))
     reg.shapes.update(lnodes_shapes.SHAPES)
     reg.opaque_specs[spec.ev] = "real"
-    reg.opaque_specs[spec.evi] = "int"
     reg.opaque_specs[spec.evb] = "bool"
     reg.common_fields["dtype"] = lnodes_shapes._dtype
     reg.concretize_pref = lnodes_shapes.concretize_pref
     from contracts import c_lnodes
 
     c_lnodes.register(reg)
+    from contracts import c_symbols
+
+    c_symbols.register(reg)
+    from contracts import c_common
+
+    c_common.register(reg, tier)
     return reg
